@@ -419,6 +419,10 @@ fn main() {
                 corpus().into_iter().map(|(p, e, tag)| (p, e, vec!["corpus", tag])).collect();
             let gcfg = GenCfg { allow_mutual: false, ..GenCfg::default() };
             while cases.len() < args.n {
+                if rng.chance(1, 3) {
+                    cases.push(gen_shared_family(&mut rng));
+                    continue;
+                }
                 let (p, tags) = gen_program(&mut rng, &gcfg);
                 let edb = gen_edb(&mut rng, tags.contains(&"strings"));
                 cases.push((p, edb, tags));
@@ -555,6 +559,10 @@ fn main() {
                 corpus().into_iter().map(|(p, e, tag)| (p, e, vec!["corpus", tag])).collect()
             };
             while cases.len() < args.n {
+                if !is06 && rng.chance(1, 4) {
+                    cases.push(gen_shared_family(&mut rng));
+                    continue;
+                }
                 let gcfg = GenCfg { allow_mutual: false, allow_strings: !is06, ..GenCfg::default() };
                 let (mut p, mut tags) = gen_program(&mut rng, &gcfg);
                 if is06 {
